@@ -147,8 +147,16 @@ def benign(src, sid, tier, props):
     for f in ("patch.diff", "notes.md"):
         if os.path.exists(os.path.join(src, f)):
             shutil.copy(os.path.join(src, f), os.path.join(dst, f))
-    with open(os.path.join(dst, "result.json"), "w") as f:
-        json.dump({"id": sid, "suite_passes": suite.returncode == 0, "suite": suite.stdout.strip()[-200:], "checks": res}, f, indent=1)
+    rp = os.path.join(dst, "result.json")
+    merged = {}
+    if os.path.exists(rp):
+        try:
+            merged = json.load(open(rp)).get("checks", {})       # a rerun of some checks keeps the record of the others
+        except Exception:  # noqa
+            merged = {}
+    merged.update(res)
+    with open(rp, "w") as f:
+        json.dump({"id": sid, "suite_passes": suite.returncode == 0, "suite": suite.stdout.strip()[-200:], "checks": merged}, f, indent=1)
     return 0 if all(v["silent"] for v in res.values()) and suite.returncode == 0 else 1
 
 
